@@ -254,6 +254,7 @@ class VolumeSubdivision(Logger):
         self.conn = None # connectivity
 
     def __enter__(self):
+        self._input = self.mesh
         self.conn = self.mesh.connectivity
         self.conn._compute_cell_adj()
         self.mesh = RawMeshData(self.mesh)
@@ -265,6 +266,14 @@ class VolumeSubdivision(Logger):
     def __exit__(self, exc_type, exc_value, tb):
         self.mesh.prepare()
         self.mesh = _instanciate_raw_mesh_data(self.mesh, 3)
+        # same as for surfaces: the mesh that was given to the editor ends up equal to the result
+        for name in ("vertices", "edges", "faces", "face_corners", "cells", "cell_corners", "cell_faces"):
+            setattr(self._input, name, getattr(self.mesh, name))
+        self._input.connectivity.clear()
+        self._input._boundary_faces = self._input._interior_faces = None
+        self._input._is_vertex_on_border = self._input._boundary_vertices = self._input._interior_vertices = None
+        self._input._is_edge_on_border = self._input._boundary_edges = self._input._interior_edges = None
+        self._input.boundary_connectivity = None
 
     def split_cell_as_fan(self, cell_id:int):
         """
